@@ -1,8 +1,10 @@
 import Adlt.Remote.Incr
+import Adlt.Remote.Late
 import Adlt.Remote.Drv
 import Adlt.Gen.Consts
 /-! glue for the incremental stream index at library level (C16).
-    case: `<msgs> | <stream|query> <filters> <start> <stop> | <ev>;<ev>…`
+    case: `<msgs> | <stream|query> <filters> <start> <stop> [d<n>] | <ev>;<ev>…`   (`d<n>`: collect mode one_pass_streams, the stream is
+    created after n messages were parsed and drained)
     obs:  `<len>:<processed> …(one per round) | <a>+<n>,…(the final index, run-length) | fa=<0|1> p=<processed>` -/
 namespace Inc
 open Util
@@ -42,7 +44,9 @@ def doLine (line : String) : String :=
   match cs.splitOn " | " with
   | [ms, hd, evs] =>
     let msgs := Rem.parseMsgs ms
-    match fields hd " " with
+    let hdf := fields hd " "
+    let drained : Nat := match hdf.getD 4 "" with | "" => 0 | x => min (nat! (x.drop 1).toString) msgs.length
+    match hdf.take 4 with
     | [kind, fs, a, b] =>
       let fsp := Rem.parseFs fs
       let ka := (msgs.map (Rem.keeps fsp)).toArray
@@ -51,10 +55,12 @@ def doLine (line : String) : String :=
       -- arrivals never exceed the file
       let step := fun (acc : SC × List String) (e : Ev) =>
         let e' := match e with | .arrive k => Ev.arrive (min k (n - acc.1.allLen)) | x => x
-        let s' := stepEv keep partConst acc.1 e'
+        let s' := match e' with
+          | .tick c => send (procNewD keep partConst acc.1 c drained)
+          | x => stepEv keep partConst acc.1 x
         (s', match e with | .tick _ => acc.2 ++ [s!"{s'.filtered.length}:{s'.processed}"] | _ => acc.2)
       let evl := parseEvs evs
-      let r := evl.foldl step (SC.new (kind == "stream") (!fsp.isEmpty) (nat! a) (nat! b), [])
+      let r := evl.foldl step ({ SC.new (kind == "stream") (!fsp.isEmpty) (nat! a) (nat! b) with allLen := drained }, [])
       let s := r.1
       let mobs := s!"{" ".intercalate r.2} | {showRuns s.filtered} | fa={if s.filtersActive then 1 else 0} p={s.processed}"
       -- oracle on the implementation's own output: its final index is the filtered log below its progress mark
@@ -63,15 +69,17 @@ def doLine (line : String) : String :=
       let tail := fields (parts.getD 2 "") " "
       let ifa := tail.any (· == "fa=1")
       let ip := match tail.find? (·.startsWith "p=") with | some x => nat! (x.drop 2).toString | none => 0
+      let lastIsTick := match evl.getLast? with | some (.tick _) => true | _ => false
       let c16 :=
         if impl == "" then "-" else if impl == "PANIC" then "FAIL:panic" else if parts.length != 3 then "FAIL:no-observation"
         else if ip > n then "FAIL:progress-mark-beyond-the-file"
-        else if ifa && ifilt != matchRange keep 0 ip then "FAIL:index-is-not-the-filtered-log-below-the-progress-mark"
+        else if ifa && ifilt != matchRange keep drained (ip - drained) then "FAIL:index-is-not-the-filtered-log-below-the-progress-mark"
+        else if !ifa && lastIsTick && s.allLen > drained && ip != s.allLen then "FAIL:unfiltered-progress-mark-is-not-the-number-of-messages-received"
         else "ok"
       let settled := decide (s.filtersActive = true → (s.processed = s.allLen ∨ (s.isStream = false ∧ s.stop ≤ s.filtered.length)))
       let tags : List String :=
         [if kind == "stream" then "stream" else "query"] ++ (if fsp.isEmpty then ["unfiltered"] else ["filtered"]) ++
-        (if n > 65536 then ["beyond-part-chunk"] else []) ++
+        (if n > 65536 then ["beyond-part-chunk"] else []) ++ (if drained > 0 then ["created-after-drain"] else []) ++
         (if evl.any (fun | .cw _ _ => true | _ => false) then ["window-change"] else []) ++
         (if !s.filtered.isEmpty then ["matches"] else []) ++
         (if settled then ["settled"] else ["unsettled"]) ++
